@@ -396,7 +396,7 @@ for _pid, _t in ADDED12.items():
 ADDED13 = {
  "C06": "(S17) ALDOR_E_TinReturnNoVal is raised under `no value given` and `far type not None`; no other predicate takes part.",
  "C11": "(N12) every low-bits mask of bigint.c with a variable count is built where the count is bounded below the operand's width (enclosing test or earlier clamp).",
- "C13": "(U11) every tfNew* result in tformFrBuffer has its step stamp set to 0 in the same block.",
+ "C13": "(U11) every tfNew* result in tformFrBuffer has its step stamp set to 0 in the same block; (U12) every getchar() result in fint.c goes into an int compared with EOF and every loop whose condition reads stdin tests EOF.",
  "C16": "(M14) every formatted escape of ccoPrToken is a three-digit octal escape, in both C dialects.",
  "C17": "(R11) the candidate tests of fileRdFind call, directly or through helpers of path.c, only predicates that do not look at size or content.",
  "C20": "(V17) inside a counted loop of table.c a bucket array is indexed only up to its own table's bucket count (T->buckc, or the count T was made with); (V18) a branch of a parameter node is read only under a not-a-leaf test or the parameter requires an inner node, every call supplies one, and no non-static function requires one; (V19) no query operation of table.c stores into a chain link or bucket head (tblElt does: known finding).",
